@@ -51,6 +51,8 @@ def setup_imports():
         sys.path.insert(0, p)
     import warnings
     warnings.simplefilter('ignore')
+    if sys.flags.bytes_warning > 1:       # interpreter started with -bb: keep its meaning
+        warnings.filterwarnings('error', category=BytesWarning)
     set_logging(False)
     import pamqp
     here = os.path.realpath(os.path.dirname(pamqp.__file__))
@@ -74,8 +76,13 @@ def set_logging(debug):
     import logging
     lg = logging.getLogger('pamqp')
     if not _NULL_HANDLER:
-        _NULL_HANDLER.append(logging.NullHandler())
-        lg.addHandler(_NULL_HANDLER[0])
+        # a real handler: every record is formatted (message % args) and written to a
+        # discarded stream, as an application's file or console handler would do
+        logging.raiseExceptions = False
+        h = logging.StreamHandler(open(os.devnull, 'w'))
+        h.setFormatter(logging.Formatter('%(asctime)s %(name)s %(levelname)s %(message)s'))
+        _NULL_HANDLER.append(h)
+        lg.addHandler(h)
         lg.propagate = False
     if debug:
         logging.disable(logging.NOTSET)
